@@ -99,6 +99,17 @@ def check(acc: Acc, name: str, xs: list[float], dyadic: bool) -> None:
             acc.violate("array-shape", {"hedge": name, "shape": "one-element"}, {"hedge": name, "x": xs[len(xs) // 2]}, list(shape),
                         f"{type(r).__name__} {list(np.shape(r))}", f"{name}: a one-element array of shape {shape} comes back as {type(r).__name__} of shape {np.shape(r)}")
             return
+    # empty arrays (elementwise over nothing): an empty array of the same shape comes back, no reduction may fail
+    for shape in ((0,), (0, 3), (2, 0)):
+        try:
+            r = h.hedge(np.empty(shape))
+            got = f"{type(r).__name__} {list(np.shape(r))}"
+        except Exception as ex:  # noqa: BLE001
+            got = f"{type(ex).__name__}: {str(ex)[:80]}"
+        if got != f"ndarray {list(shape)}":
+            acc.violate("array-shape", {"hedge": name, "shape": "empty"}, {"hedge": name, "x": xs[0], "empty_shape": list(shape)}, f"ndarray {list(shape)}", got,
+                        f"{name}: an empty array of shape {shape} gives {got}")
+            return
     first = h.hedge(arr)
     keep_first = np.array(first, dtype=float, copy=True)
     if isinstance(first, np.ndarray) and first.flags.writeable:
